@@ -138,11 +138,11 @@ example : resplit .altd ⟨[], "altd".toList, [], ["ld\t a".toList, "(iy+4)".toL
     = some ⟨["ALTD".toList], ⟨[], "LD".toList, [], ["a".toList, "(iy+4)".toList]⟩⟩ := by decide
 example : preprocess "#define\tLEN 5".toList = some ("DEFINE".toList, "LEN".toList, ['5']) := by decide
 example : preprocess "  #Define LEN \t 1+2  ".toList = some ("DEFINE".toList, "LEN".toList, "1+2".toList) := by decide
-/-- **Recorded finding** (`upd772x-op-operandless-inner-mnemonic-case-sensitive`): the µPD772x `OP` handler upper-cases
-the inner mnemonic only if an operand follows it – `op nop` reaches the (upper-case) instruction table as `nop`, while
-`op mov @a,b` reaches it as `MOV`. -/
-theorem C16_finding_op7720_operandless_case :
-    resplit .op7720 ⟨[], "op".toList, [], ["nop".toList]⟩ = some ⟨["OP".toList], ⟨[], "nop".toList, [], []⟩⟩ ∧
+/-- **Repaired finding** (`upd772x-op-operandless-inner-mnemonic-case-sensitive`, repair abd5d30): the µPD772x `OP` handler
+upper-cases the inner mnemonic whether or not an operand follows it – `op nop` reaches the (upper-case) instruction table
+as `NOP` (as written, before the repair), `op mov @a,b` as `MOV`. -/
+theorem C16_op7720_operandless_case :
+    resplit .op7720 ⟨[], "op".toList, [], ["nop".toList]⟩ = some ⟨["OP".toList], ⟨[], "NOP".toList, [], []⟩⟩ ∧
     resplit .op7720 ⟨[], "op".toList, [], ["mov @a".toList, ['b']]⟩
       = some ⟨["OP".toList], ⟨[], "MOV".toList, [], ["@a".toList, ['b']]⟩⟩ := by
   decide
